@@ -90,6 +90,21 @@ def wfl_tie(run: core.Run, drv: Any, ok_cases: list, jobs: int) -> Counter:
         except Exception as e:  # noqa
             st["not_lowered"] += 1
     reps = drv.batch_parallel(reqs, jobs) if reqs else []
+    # tie of `toSrc` (ESV/Comp/ToSrc.lean): the core program sent to the language semantics = toSrc of the compiler model's input
+    treps = drv.batch_parallel([{"op": "comp.tosrc", "prog": q["prog"], "core": surface.lower_program(c["ast"])} for q, c in zip(reqs, keep)], jobs) if reqs else []
+    tshown = 0
+    for c, rep in zip(keep, treps):
+        if "error" in rep:
+            st["tosrc_error"] += 1
+        elif rep.get("agree") is True:
+            st["tosrc_agree"] += 1
+            if rep.get("f0"):
+                st["in_F0"] += 1
+        else:
+            st["tosrc_differs"] += 1
+            tshown += 1
+            if tshown <= 3:
+                run.broken_tie("toSrc of the compiler model's input differs from the core program lowered for the language semantics", {"text": c["text"]})
     shown = 0
     for c, rep in zip(keep, reps):
         if "error" in rep:
